@@ -45,6 +45,7 @@ type SchedResult struct {
 	RaceBuild     bool              `json:"race_build"`
 	Ties          int               `json:"maporder_ties"`
 	FreeformLines int               `json:"freeform_lines"`
+	SharedChanged []string          `json:"shared_values_changed"`
 	SwitchPerK    uint32            `json:"switch_per_k"`
 	EvalPerK      uint32            `json:"eval_per_k"`
 }
@@ -263,6 +264,7 @@ func schedChild(args []string) int {
 		// (the C06 generator) instead of the symbol-interning programs: any interpreter-wide
 		// state touched by any built-in is then exercised from several tasks at once
 		freeform := make([]bool, k)
+		taskViols := make([][]string, k)
 		taskLines := make([][]c06Line, k)
 		soloEval := func(prog ast.Node, c *harness.Callee, env *object.Env) (res harness.Result) {
 			c.Bind(env)
@@ -283,12 +285,37 @@ func schedChild(args []string) int {
 			}
 			return
 		}
+		// C06 face 3: in some runs the free-form tasks share one pool of values created
+		// beforehand in a common outer scope; nothing any task does may write to them
+		var sharedEnv *object.Env
+		var sharedNames []string
+		var sharedBefore []string
+		builtinsFP := map[object.PanObject]string{}
+		if t.Chance(1, 2) {
+			sharedEnv = object.NewEnclosedEnv(it.Global)
+			for i := 0; i < 6; i++ {
+				src := c06Seeds[t.Intn(len(c06Seeds))]
+				prog, err := harness.Parse(src)
+				if err != nil {
+					continue
+				}
+				o := evaluator.Eval(prog, object.NewEnclosedEnv(it.Global))
+				if _, isErr := o.(*object.PanErr); isErr || !poolable(o) || typeTag(o) == "iter" {
+					continue
+				}
+				name := fmt.Sprintf("sh%d", i)
+				sharedEnv.Set(object.GetSymHash(name), o)
+				sharedNames = append(sharedNames, name)
+				sharedBefore = append(sharedBefore, c06Fingerprint(o, builtinsFP, 0))
+				res.Programs = append(res.Programs, name+" := "+src)
+			}
+		}
 		histGen := make([]*c06Check, k)
 		histTape := make([]*tape.Tape, k)
 		for i := 0; i < k; i++ {
 			if t.Chance(1, 2) {
 				freeform[i] = true
-				histGen[i] = &c06Check{it: it, evalHook: soloEval}
+				histGen[i] = &c06Check{it: it, evalHook: soloEval, sharedEnv: sharedEnv, sharedNames: sharedNames}
 				histTape[i] = tape.New(uint64(t.U32())<<20|uint64(*run), uint64(i))
 				res.Programs[i] = "<free-form history over built-in properties>"
 			}
@@ -314,7 +341,9 @@ func schedChild(args []string) int {
 					}
 				}()
 				if freeform[i] {
-					histGen[i].runHist(*seed, *run, histTape[i], newC06Stats(), &taskLines[i])
+					for _, v := range histGen[i].runHist(*seed, *run, histTape[i], newC06Stats(), &taskLines[i]) {
+						taskViols[i] = append(taskViols[i], fmt.Sprintf("task %d: %s: %v -> %v", i, v.Signature, v.Expected, v.Actual))
+					}
 					return
 				}
 				for j, src := range progs[i] {
@@ -330,11 +359,23 @@ func schedChild(args []string) int {
 				res.Panics = append(res.Panics, fmt.Sprintf("task %d: %s", i, p))
 			}
 		}
+		for i, name := range sharedNames {
+			v, _ := sharedEnv.Get(object.GetSymHash(name))
+			if now := c06Fingerprint(v, builtinsFP, 0); now != sharedBefore[i] {
+				res.SharedChanged = append(res.SharedChanged, fmt.Sprintf("%s: before=%s after=%s", name, clipStr(sharedBefore[i], 300), clipStr(now, 300)))
+			}
+		}
+		for i := range taskViols {
+			res.SharedChanged = append(res.SharedChanged, taskViols[i]...)
+		}
 		// isolation: each task's results equal its results when run alone
 		for i := range progs {
 			if freeform[i] {
 				// replay the recorded lines alone, in a fresh scope: same results
 				env := object.NewEnclosedEnv(it.Global)
+				if sharedEnv != nil {
+					env = object.NewEnclosedEnv(sharedEnv)
+				}
 				for _, l := range taskLines[i] {
 					prog, err := harness.Parse(l.Src)
 					if err != nil {
